@@ -291,7 +291,7 @@ def s5(cx):
     from . import c16
     out = []
     for f in c16.e1(cx):
-        if not f.ok and f.msg.startswith(('answers only whether its own slot is empty', 'returns the constant false', 'empty-slot path')):
+        if not f.ok and (getattr(f, 'state', None) == 'under' or f.msg.startswith(('answers only whether its own slot is empty', 'returns the constant false', 'empty-slot path'))):
             # answers false too often: no terminal is lost by that (the producer-retirement half is C16.E1)
             out.append(Finding(ID, 'S5', f.key, True, 'never answers true for a live downstream (it under-reports finished: C16.E1)', f.loc))
             continue
